@@ -102,6 +102,18 @@ func checkYJ(c YJ) hx.Verdict {
 		return hx.OK(true, c.Text, "non_representable_error")
 	}
 	if o.Err != "" {
+		beyond := false
+		for _, v := range truth {
+			v.Walk(func(x *model.Value) {
+				if x.K == model.Int && !x.I.IsInt64() {
+					beyond = true
+				}
+			})
+		}
+		if beyond {
+			// yq's node model has no integer wider than 64 bit: the statement allows an error, not another value
+			return hx.OK(true, c.Text, "beyond_int64_error")
+		}
 		return hx.Bad("", "conversion to JSON failed (%s): %q", o.Err, c.Text)
 	}
 	out := o.Out
@@ -143,10 +155,10 @@ func checkYJ(c YJ) hx.Verdict {
 			return hx.Bad("", "JSON output has duplicate keys: %q", out)
 		}
 		if !model.EqualTol(got[i], truth[i], 1e-15) {
-			return hx.Bad("", "document %d: JSON %s differs from the YAML value %s\ninput:\n%s", i, got[i].JSON(), truth[i].JSON(), c.Text)
+			return hx.Bad(sigForYAML(truth[i], got[i]), "document %d: JSON %s differs from the YAML value %s\ninput:\n%s", i, got[i].JSON(), truth[i].JSON(), c.Text)
 		}
 		if why := exactNumbers(got[i], truth[i]); why != "" {
-			return hx.Bad("", "document %d: %s\ninput:\n%s\noutput:\n%s", i, why, c.Text, out)
+			return hx.Bad(sigForYAML(truth[i], got[i]), "document %d: %s\ninput:\n%s\noutput:\n%s", i, why, c.Text, out)
 		}
 	}
 	// indent: every nested line is indented by a multiple of the requested indent
@@ -435,6 +447,45 @@ func sigFor(orig, got *model.Value, viaYAML bool) string {
 		return "deviant:json-int-beyond-int64"
 	case usedMerge:
 		return "deviant:json-merge-key-string"
+	}
+	return ""
+}
+
+// sigForYAML recognises the YAML leg of the open big-integer finding: a plain integer below -2^63 or above 2^64-1 is
+// typed !!float by the YAML reader and comes out as its float64 rounding. Integers from 2^63 to 2^64-1 are typed
+// !!int and must be exact or an error: they are not part of the finding.
+func sigForYAML(orig, got *model.Value) string {
+	used := false
+	lo := new(big.Int).SetInt64(math.MinInt64)
+	hi := new(big.Int).SetUint64(math.MaxUint64)
+	var dev func(v *model.Value) *model.Value
+	dev = func(v *model.Value) *model.Value {
+		switch v.K {
+		case model.Int:
+			if v.I.Cmp(lo) < 0 || v.I.Cmp(hi) > 0 {
+				used = true
+				f, _ := new(big.Float).SetInt(v.I).Float64()
+				return model.NewFloat(f)
+			}
+		case model.Seq:
+			o := model.NewSeq()
+			for _, e := range v.Elem {
+				o.Elem = append(o.Elem, dev(e))
+			}
+			return o
+		case model.Map:
+			o := model.NewMap()
+			for i, k := range v.Keys {
+				o.Keys = append(o.Keys, k)
+				o.Vals = append(o.Vals, dev(v.Vals[i]))
+			}
+			return o
+		}
+		return v
+	}
+	d := dev(orig)
+	if used && floatEqual(d, got) {
+		return "deviant:yaml-int-beyond-uint64"
 	}
 	return ""
 }
